@@ -22,10 +22,13 @@ KINDS = [("ADD", None), ("PUSH", "hex"), ("PUSH [tag]", "dec"), ("tag", "dec"), 
 NK = len(KINDS)
 
 
-def make_item(kind: int, begin: int, end: int, source: int, d0: int, d1: int, d2: int, has_md: bool, md: int, jt: int):
+def make_item(kind: int, begin: int, end: int, source: int, d0: int, d1: int, d2: int, has_md: bool, md: int, jt: int,
+              zero: bool = False):
     name, vk = KINDS[kind]
     it = {"begin": begin, "end": end, "name": name, "source": source}
-    digits = HEX[d0] + HEX[d1] + HEX[d2]
+    digits = "000" if zero else HEX[d0] + HEX[d1] + HEX[d2]
+    if zero:
+        d0 = d1 = d2 = 0
     if vk == "hex":
         it["value"] = digits.lstrip("0") or "0"
     elif vk == "zero":
@@ -59,7 +62,7 @@ def norm(x):
 
 
 def json_roundtrip(n: int, k0: int, k1: int, k2: int, begin: int, end: int, source: int, d0: int, d1: int, d2: int,
-                   has_md: bool, md: int, jt: int, push0: bool, with_sub: bool, with_sl: bool) -> bool:
+                   has_md: bool, md: int, jt: int, push0: bool, with_sub: bool, with_sl: bool, zero: bool) -> bool:
     """
     pre: n == 1 and k1 == 0 and k2 == 0
     pre: with_sub and with_sl
@@ -71,7 +74,7 @@ def json_roundtrip(n: int, k0: int, k1: int, k2: int, begin: int, end: int, sour
     """
     constants._set_push0(push0)
     ks = [k0, k1, k2][:n]
-    code = [make_item(k, begin + i, end + i, source, d0, (d1 + i) % 16, d2, has_md, md, jt) for i, k in enumerate(ks)]
+    code = [make_item(k, begin + i, end + i, source, d0, (d1 + i) % 16, d2, has_md, md, jt, zero) for i, k in enumerate(ks)]
     asm = {".code": code, ".data": {}}
     if with_sub:
         asm[".data"]["0"] = {".auxdata": "a26469", ".code": list(code), ".data": {"A1": "6080"}}
@@ -86,7 +89,7 @@ def json_roundtrip(n: int, k0: int, k1: int, k2: int, begin: int, end: int, sour
 
 
 def json_roundtrip_reach(n: int, k0: int, k1: int, k2: int, begin: int, end: int, source: int, d0: int, d1: int, d2: int,
-                         has_md: bool, md: int, jt: int, push0: bool, with_sub: bool, with_sl: bool) -> bool:
+                         has_md: bool, md: int, jt: int, push0: bool, with_sub: bool, with_sl: bool, zero: bool) -> bool:
     """
     reachability twin: same preconditions, the postcondition must be REFUTED
     pre: n == 1 and k1 == 0 and k2 == 0
@@ -97,7 +100,7 @@ def json_roundtrip_reach(n: int, k0: int, k1: int, k2: int, begin: int, end: int
     pre: 0 <= jt < 3
     post: not _
     """
-    return json_roundtrip(n, k0, k1, k2, begin, end, source, d0, d1, d2, has_md, md, jt, push0, with_sub, with_sl)
+    return json_roundtrip(n, k0, k1, k2, begin, end, source, d0, d1, d2, has_md, md, jt, push0, with_sub, with_sl, zero)
 
 
 PLAIN = ["ADD", "PUSH", "PUSH [tag]", "PUSH data", "PUSHIMMUTABLE", "PUSHSIZE", "PUSHDEPLOYADDRESS", "PUSH #[$]", "PUSH [$]",
@@ -108,7 +111,7 @@ NP = len(PLAIN)
 def plain_roundtrip(n: int, k0: int, k1: int, k2: int, d0: int, d1: int, d2: int, push0: bool, byte_number: bool) -> bool:
     """
     pre: n == 1 and k1 == 0 and k2 == 0
-    pre: d0 == 0 and d2 == 7 and d1 == 12
+    pre: d0 == 0 and (d2 == 7 and d1 == 12 or d2 == 0 and d1 == 0)
     pre: 0 <= k0 < NP and 0 <= k1 < NP and 0 <= k2 < NP
     pre: 0 <= d0 < 16 and 0 <= d1 < 16 and 0 <= d2 < 16
     post: _
@@ -164,7 +167,7 @@ def numeral_value(d0: int, d1: int, d2: int, d3: int, lead: int, spelling: int, 
 
 
 def json_roundtrip2(n: int, k0: int, k1: int, k2: int, begin: int, end: int, source: int, d0: int, d1: int, d2: int,
-                    has_md: bool, md: int, jt: int, push0: bool, with_sub: bool, with_sl: bool) -> bool:
+                    has_md: bool, md: int, jt: int, push0: bool, with_sub: bool, with_sl: bool, zero: bool) -> bool:
     """
     thorough tier: two items
     pre: n == 2 and k2 == 0
@@ -173,14 +176,13 @@ def json_roundtrip2(n: int, k0: int, k1: int, k2: int, begin: int, end: int, sou
     pre: d0 == 0 and d2 == 10 and d1 == 3 and jt == 1
     post: _
     """
-    return json_roundtrip.__wrapped__(n, k0, k1, k2, begin, end, source, d0, d1, d2, has_md, md, jt, push0, with_sub, with_sl) \
-        if hasattr(json_roundtrip, "__wrapped__") else _json_body(n, k0, k1, k2, begin, end, source, d0, d1, d2, has_md, md, jt, push0, with_sub, with_sl)
+    return _json_body(n, k0, k1, k2, begin, end, source, d0, d1, d2, has_md, md, jt, push0, with_sub, with_sl, zero)
 
 
-def _json_body(n, k0, k1, k2, begin, end, source, d0, d1, d2, has_md, md, jt, push0, with_sub, with_sl):
+def _json_body(n, k0, k1, k2, begin, end, source, d0, d1, d2, has_md, md, jt, push0, with_sub, with_sl, zero=False):
     constants._set_push0(push0)
     ks = [k0, k1, k2][:n]
-    code = [make_item(k, begin + i, end + i, source, d0, (d1 + i) % 16, d2, has_md, md, jt) for i, k in enumerate(ks)]
+    code = [make_item(k, begin + i, end + i, source, d0, (d1 + i) % 16, d2, has_md, md, jt, zero) for i, k in enumerate(ks)]
     asm = {".code": code, ".data": {}}
     if with_sub:
         asm[".data"]["0"] = {".auxdata": "a26469", ".code": list(code), ".data": {"A1": "6080"}}
@@ -189,3 +191,43 @@ def _json_body(n, k0, k1, k2, begin, end, source, d0, d1, d2, has_md, md, jt, pu
         asm["sourceList"] = ["a.sol", "#utility.yul"]
     c = build_asm_contract("a.sol:C", asm)
     return norm(c.to_asm_json()) == norm(asm)
+
+
+def _numval(disasm, value):
+    if value is None:
+        return None
+    if disasm in ("PUSH [tag]", "tag", "PUSHLIB"):
+        return int(value)
+    return int(str(value), 16)
+
+
+def plain_of_json(k0: int, begin: int, end: int, source: int, d0: int, d1: int, d2: int, zero: bool, has_md: bool, md: int,
+                  push0: bool) -> bool:
+    """
+    a block read from JSON, rendered with to_plain and read back by the plain-text reader is the same block: same mnemonics,
+    every operand keeping its numeric value (tags are not part of the rendering; jumpType is not part of plain text)
+    pre: 0 <= k0 < NK
+    pre: d0 == 0 and d2 == 10 and d1 == 3
+    post: _
+    """
+    constants._set_push0(push0)
+    code = [make_item(k0, begin, end, source, d0, d1, d2, has_md, md, 0, zero)]
+    c = build_asm_contract("a.sol:C", {".code": code, ".data": {}})
+    for blk in c.init_code:
+        want = [(i.disasm, _numval(i.disasm, i.value)) for i in blk.instructions if i.disasm != "tag"]
+        back = parse_blocks_from_plain_instructions(blk.to_plain())
+        got = [(i.disasm, _numval(i.disasm, i.value)) for b in back for i in b.instructions]
+        if got != want:
+            return False
+    return True
+
+
+def plain_of_json_reach(k0: int, begin: int, end: int, source: int, d0: int, d1: int, d2: int, zero: bool, has_md: bool, md: int,
+                        push0: bool) -> bool:
+    """
+    reachability twin
+    pre: 0 <= k0 < NK
+    pre: d0 == 0 and d2 == 10 and d1 == 3
+    post: not _
+    """
+    return plain_of_json(k0, begin, end, source, d0, d1, d2, zero, has_md, md, push0)
